@@ -5,6 +5,7 @@ from props import shellcommon as sc
 from sim.sadtrace import SadRecorder
 from sim.scenarios import Pair, SCRIPTED, scripted, random_walk, CONF_FAMILY
 from sim.world import LoopEscape
+from props import hdl
 from vlib import core
 from vlib.core import Failure
 
@@ -115,7 +116,7 @@ def correspond(ctx):
                              f'{model_out[-500:]}',
                              {'scenario': name, 'conf': conf, 'seed': seed, 'actions': actions, 'fault': fault,
                               'step': i, 'endpoint': n, 'input': cases[gi][0], 'impl': cases[gi][1]}))
-    return fails
+    return fails + hdl.tie(ctx)
 
 
 def oracle(ctx, deep):
@@ -156,7 +157,7 @@ CHECK = core.Check(
          'delete_child_sa, hand-over, teardown) are replayed in the model from the state before and the resulting '
          'tracked set and SAD compared with the real ones; non-trivial = at least one operation; the invariant '
          'SAD = tracked is also evaluated directly on the real endpoint after every event',
-    trusted_base=sc.TRUSTED + ['model kernel of the simulator (SAD keyed by (daddr, proto, SPI); NEWSA of an installed key '
+    trusted_base=sc.TRUSTED + hdl.TRUSTED + ['model kernel of the simulator (SAD keyed by (daddr, proto, SPI); NEWSA of an installed key '
                                'and DELSA of a missing one are errors) stands for the Linux kernel'],
     assumptions=['SPIs of a CHILD_SA being created by the initiator are fresh (not those of another tracked CHILD_SA): '
                  'hypothesis op_ok of the theorem',
